@@ -203,9 +203,19 @@ def tie_histories(rng, count):
     ties = ties[:count]
     # ... and a sample of every other special place the pairing knows: poles, equator, the 180-degree meridian, zone
     # transitions, zone rows, pairs that cannot stem from one location
-    for tag in ("pole", "equator", "eqcross", "anti", "anti180", "meridian", "nltrans", "zonerow", "beyondpole", "disp"):
+    for tag in ("pole", "poledisp", "equator", "eqcross", "anti", "anti180", "meridian", "nltrans", "zonerow", "beyondpole", "disp"):
         xs = [x for x in allp if x["tag"] == tag]
         rng.shuffle(xs)
+        if tag in ("pole", "poledisp"):
+            # near the poles: both hemispheres of longitude, both caps, either report the latest one
+            groups = {}
+            for x in xs:
+                e, o = (x["first"], x["second"]) if x["first"][0] == 0 else (x["second"], x["first"])
+                pos = pair_checks.decode_ref((e[1], e[2]), (o[1], o[2]), x["second"][0] == 1)
+                if pos is not None:
+                    groups.setdefault((pos[0] < 0, pos[1] < 0, x["second"][0]), []).append(x)
+            ties += [x for g in groups.values() for x in g[:2]]
+            continue
         ties += xs[:max(4, count // 12)]
     # ... and every longitude-zone band of both hemispheres
     ties += [x for x in allp if x["tag"] == "nlband"]
@@ -287,6 +297,38 @@ def silent_refresh_histories(rng, count):
         steps.append({"op": "prune", "T": T})                                                              # a: silent for T; b: for `early` < T
         steps.append(frame_step(f_ident(rng, a, "SIL%d" % i)))                                             # heard again: newly added
         out.append({"id": f"sr{i}", "rx": [round(rx[0] * 1e6), round(rx[1] * 1e6)], "range_m": RANGES_M[1], "steps": steps})
+    return out
+
+
+def subsecond_histories(rng, count):
+    """frames that follow one another within less than a second: each one refreshes the last-heard time, to the moment it
+    is processed - an aircraft heard again a fraction of a second after its previous frame and then silent for a little
+    less than T is not due, one silent for T and a fraction is.  Ticks carry milliseconds; the margins to the due time are
+    half a second (the trace specification also allows for the real time the run itself took)"""
+    out = []
+    for i in range(count):
+        a, b, c = rng.sample(range(1, 1 << 24), 3)
+        rx = RECEIVERS[0]
+        T = rng.choice((1, 1, 2, 5, 30))
+        w = rng.choice((300, 500, 700, 900))
+        steps = [frame_step(f_ident(rng, a, "SUB%d" % i, df=rng.choice((17, 18)))), frame_step(f_ident(rng, b, "OTB%d" % i)),
+                 frame_step(f_ident(rng, c, "OTC%d" % i)),
+                 {"op": "tick", "secs": 0, "ms": w}]
+        for _ in range(rng.randrange(1, 3)):
+            steps.append(frame_step(rng.choice((f_ident(rng, a, "SUB%d" % i), f_vel(rng, a, (0, 100), (1, 200), (0, 5)), f_other_me(rng, a, df=17)))))
+        if rng.random() < 0.5:
+            # ... and once more, again within the same second
+            steps.append({"op": "tick", "secs": 0, "ms": 200})
+            steps.append(frame_step(f_ident(rng, a, "SUC%d" % i)))
+            steps.append(frame_step(f_ident(rng, c, "OTD%d" % i)))
+            w += 200
+        # a: last heard T - 0.5 s before the expiry (first heard T - 0.5 + w/1000 s before it: not what counts);
+        # b: silent for T - 0.5 + w/1000 s - due exactly when that is T or more; c: as a, when it was heard the second time
+        steps.append({"op": "tick", "secs": T - 1, "ms": 500})
+        steps.append({"op": "prune", "T": T})
+        steps.append(frame_step(f_ident(rng, b, "OTB%d" % i)))
+        steps.append(frame_step(f_ident(rng, a, "SUB%d" % i)))
+        out.append({"id": f"sub{i}", "rx": [round(rx[0] * 1e6), round(rx[1] * 1e6)], "range_m": RANGES_M[1], "steps": steps})
     return out
 
 
@@ -501,6 +543,7 @@ def run(prop, tier, seed, rep, std=True):
         hists.append(neighbour_history(rng, f"n{i}"))
     hists += tie_histories(rng, 60 if tier == "quick" else 600)
     hists += silent_refresh_histories(rng, 16 if tier == "quick" else 300)
+    hists += subsecond_histories(rng, 16 if tier == "quick" else 300)
     groups = record(hx, hists)
     events = [e for g in groups for e in g]
     verdicts, st, tr = core.validate_events("Trace_Tracker", events, prop, shards=core.MAX_JVMS,
